@@ -12,6 +12,10 @@ METHODS = ["matmul", "rmatmul", "__matmul__", "__rmatmul__", "solve", "inv_quad"
            "__radd__", "__rsub__", "add", "sub", "mul", "__mul__", "__rmul__", "add_diagonal", "add_jitter", "expand", "__getitem__"]
 INDEX_METHODS = ["_get_indices", "_getitem"]
 ROOT = "LinearOperator"
+# public entry points that take a second operand / sizes / an index: (defining class, method) pairs
+ENTRY_METHODS = ["matmul", "rmatmul", "solve", "inv_quad", "inv_quad_logdet", "sqrt_inv_matmul", "__add__", "__sub__", "mul",
+                 "add_diagonal", "expand", "__getitem__", "__matmul__", "__rmatmul__", "__mul__", "__radd__", "__rsub__", "__rmul__",
+                 "add", "sub", "add_jitter"]
 # delegation chains of the solve-type public methods: which hooks / helpers a method body calls
 DELEG_METHODS = ["solve", "inv_quad", "inv_quad_logdet", "sqrt_inv_matmul", "_solve", "_cholesky_solve", "_inv_matmul",
                  "_maybe_reshape_rhs", "solve_triangular"]
@@ -148,6 +152,13 @@ def extract():
             names, _ = _calls(fn)
             if m == "_get_indices":
                 overrides.append((c, m + ":fmod", "fmod" in names))
+    entry = set()
+    for c in ops:
+        for m in ENTRY_METHODS:
+            d = next((k for k in c3(c, classes, memo) if k in classes and m in classes[k]["methods"]), None)
+            if d is not None:
+                entry.add((d, m))
+    extract.entry_points = sorted(entry, key=lambda x: (x[1], x[0]))
     delegations = []
     for c in sorted(set(ops) | {ROOT}):
         for m in DELEG_METHODS:
@@ -227,6 +238,9 @@ def generate():
     out += ["", "/-- (guard inside a base-class method / utility, present) -/",
             "def baseGuards : List (String × Bool) := ["]
     out.append(",\n".join(f"  ({lean_str(n)}, {b(g)})" for n, g in base_guards) + "]")
+    out += ["", "/-- public entry points with a second operand / sizes / an index: (class that defines the method, method) -/",
+            "def entryPoints : List (String × String) := ["]
+    out.append(",\n".join(f"  ({lean_str(c)}, {lean_str(m)})" for c, m in extract.entry_points) + "]")
     out += ["", "/-- (class, solve-type method or hook, the hooks / helpers its body calls: `name:U` = on every path, `name:C` = on some) -/",
             "def delegations : List (String × String × List String) := ["]
     out.append(",\n".join(f"  ({lean_str(c)}, {lean_str(m)}, [{', '.join(lean_str(x) for x in d)}])" for c, m, d in extract.delegations) + "]")
